@@ -3,7 +3,7 @@
    contract of the bounded readers; the code is tied to it by the hostile-input
    stream under ASan+UBSan with exactly-sized heap inputs and a counting
    allocator. *)
-From Nop Require Import Spec Sim EncSpec ScalarRT DecSpec Readers Lang.
+From Nop Require Import Spec Sim EncSpec ScalarRT DecSpec Readers Lang Sound.
 Local Open Scope N_scope.
 
 (* Reading over the buffer reader model (BufferReader after its repair,
@@ -27,3 +27,32 @@ Print Assumptions C02_bounded_in_frame.
 Theorem C02_consumes_prefix : forall t bs v rest, ldec t bs = Ok v rest -> exists e, bs = e ++ rest.
 Proof. exact dec_consumes_prefix. Qed.
 Print Assumptions C02_consumes_prefix.
+
+(* Never writes outside the destination object, at the level of the model: for EVERY
+   byte string (of octets) and every schema, whatever a successful read delivers has
+   the shape of the destination type at every nesting depth — integers within the
+   range of their C++ type, std::array / C arrays with exactly their extent, logical
+   buffers within their capacity, all members of tuples and structures, a variant index
+   that selects an existing alternative, values only in active table entries. *)
+Theorem C02_decoded_fits_destination : forall t (bs : bytes) v rest, all_bytes bs = true ->
+  dec t lr_ops bs = Ok v rest -> has_shape t v = true /\ all_bytes rest = true.
+Proof. exact dec_shape. Qed.
+Print Assumptions C02_decoded_fits_destination.
+
+(* ... and the same over any reader that hands out octets, in particular over any nesting
+   of BoundedReader (which is how table entries are read) *)
+Theorem C02_fits_over_any_reader : forall t R (o : rops R) inv, good_reader o inv ->
+  forall r v r', inv r -> dec t o r = Ok v r' -> has_shape t v = true /\ inv r'.
+Proof. intros t R o inv G. exact (dec_shape_any_reader t o inv G). Qed.
+Print Assumptions C02_fits_over_any_reader.
+
+Theorem C02_bounded_reader_is_good : forall R (o : rops R) inv,
+  good_reader o inv -> good_reader (bounded_rops o) (fun b => inv (b_inner b)).
+Proof. exact @bounded_good. Qed.
+Print Assumptions C02_bounded_reader_is_good.
+
+Theorem C02_array_extent_and_buffer_capacity :
+  (forall ca n t' vs, has_shape (TSeq (CArr ca n) t') (VSeq vs) = true -> nlen vs = n) /\
+  (forall ca cap sk t' vs, has_shape (TSeq (CLBuf ca cap sk false) t') (VSeq vs) = true -> nlen vs <= cap).
+Proof. split; [exact shape_array|exact shape_lbuf]. Qed.
+Print Assumptions C02_array_extent_and_buffer_capacity.
